@@ -1,26 +1,20 @@
-#define PRE_K 3
-#define PRE_N 2
-#define PRE_E1 0
-#define PRE_E2 6
+#define KF_EXCL_C12_number_ctor_uninit 1
 #include "C12_value.cpp"
-extern "C" void h_p1() {   // build + copy + destroy
-    M m; M tm; Slot sv, st; V *v = nullptr; V *t = nullptr;
-    mk<PreC>(sv, st, m, tm, v, t);
-    { V c(*v); vf_assert(c.Size() == 2, 1); }
-    v->~V();
+extern "C" void h_p1() {   // Value from empty Array&&, destroy
+    { V t{AT()};
+    vf_assert(t.Size() == 0, 1); }
     vf_witness();
 }
-extern "C" void h_p2() {   // build + copy + obs(c) + destroy
-    M m; M tm; Slot sv, st; V *v = nullptr; V *t = nullptr;
-    mk<PreC>(sv, st, m, tm, v, t);
-    { V c(*v); obs_doc(c, m); }
-    v->~V();
+extern "C" void h_p2() {   // move that into an Array<V>
+    { AT arr;
+      V t{AT()};
+      arr += Memory::Move(t);
+    vf_assert(arr.Size() == 1, 1); }
     vf_witness();
 }
-extern "C" void h_p3() {   // build + copy + mutate + destroy
-    M m; M tm; Slot sv, st; V *v = nullptr; V *t = nullptr;
-    mk<PreC>(sv, st, m, tm, v, t);
-    { V c(*v); mutate(c); }
-    v->~V();
+extern "C" void h_p3() {   // Value array += Value{AT()}
+    { V v(T::Array);
+      v += V{AT()};
+    vf_assert(v.Size() == 1, 1); }
     vf_witness();
 }
